@@ -84,6 +84,7 @@ type FuncSpec struct {
 	Trusted   bool
 	Allocates bool
 	Pure      bool
+	Blocking  bool // the call can block (C16, rule SB)
 	Wraps     map[string]bool
 	Where     string
 	External  bool
@@ -91,6 +92,7 @@ type FuncSpec struct {
 }
 
 type EventSpec struct {
+	In      string // optional: only in the function with this key suffix
 	Pkg     string
 	Kind    string // send recv close
 	Pattern string
@@ -278,6 +280,10 @@ func (sp *Specs) parseSpecFile(path, pkg string) error {
 			curF, curL, curP, curFT = nil, nil, nil, nil
 			curE = &EventSpec{Pkg: pkg, Kind: f[1], Where: where}
 			r := strings.TrimSpace(strings.TrimPrefix(rest, f[1]))
+			if i := strings.LastIndex(r, " in "); i >= 0 && !strings.Contains(r[i+4:], " ") {
+				curE.In = strings.TrimSpace(r[i+4:])
+				r = strings.TrimSpace(r[:i])
+			}
 			r = " " + r
 			if i := strings.LastIndex(r, " ("); i >= 0 && strings.HasSuffix(r, ")") {
 				for _, v := range strings.FieldsFunc(r[i+2:len(r)-1], func(r rune) bool { return r == ',' || r == ' ' }) {
@@ -285,7 +291,7 @@ func (sp *Specs) parseSpecFile(path, pkg string) error {
 				}
 				r = strings.TrimSpace(r[:i])
 			}
-			curE.Pattern = r
+			curE.Pattern = strings.TrimSpace(r)
 			sp.Events = append(sp.Events, curE)
 		case kw == "pred":
 			if err := finish(); err != nil {
@@ -377,6 +383,8 @@ func (sp *Specs) parseSpecFile(path, pkg string) error {
 			curFT.Allocates = true
 		case kw == "pure" && curF != nil:
 			curF.Pure = true
+		case kw == "blocking" && curF != nil:
+			curF.Blocking = true
 		case kw == "wraps" && curF != nil:
 			for _, w := range f[1:] {
 				curF.Wraps[w] = true
